@@ -710,9 +710,105 @@ def r10_optimize_keeps_components(ctx, F, rule="C02.R10"):
     ctx.floor(rule, "fields of StmtCompiled variants", len(allf), 10)
 
 
+def r11_no_inlining_of_annotated_defs(ctx, F, rule="C02.R11"):
+    """a def with a parameter or return annotation is never marked inlinable: an inlined call skips the callee's frame,
+    and with it the runtime checks of those annotations. Either the call of inline_def_body in Compiler::function is
+    made only when `has_types` is false, or - if the flag is passed down - every InlineDefBody built inside is under
+    the flag's false edge."""
+    from kern import bool_local_edges
+    fn = F.one(r"eval::compiler::def::<impl eval::compiler::Compiler<'_, '_, '_, '_>>::function$")
+    calls_ = [c for c in fn.calls if c.bb not in fn.cleanup and re.search(r"def_inline::inline_def_body$", c.name)]
+    if not calls_:
+        ctx.bad(rule, "annotated-def-inline:anchor", "anchor-missing: call of inline_def_body in Compiler::function", fn=fn)
+        return
+    # bool locals that carry "has type annotations" (assigned by ParametersCompiled::has_types, possibly or-ed)
+    H = {c.dest_local for c in fn.calls if re.search(r"ParametersCompiled::<T>::has_types$", c.name)}
+    false_edges = set()
+    for h in H:
+        false_edges |= set(bool_local_edges(fn, h, "false"))
+    inl = F.one(r"eval::compiler::def_inline::inline_def_body$")
+    for c in calls_:
+        guarded_outside = any(fn.edge_dominates(e, c.bb) for e in false_edges)
+        ok = guarded_outside
+        if not ok:
+            # the flag may be passed down: find the bool parameter and require every construction to be under it
+            passed = [i for i, a in enumerate(c.args) if any(x in H or True for x in re.findall(r"_\d+", a))
+                      and fn.locals.get(re.findall(r"_\d+", a)[0] if re.findall(r"_\d+", a) else "", "") == "bool"]
+            sites = [st for st in inl.stmts if re.search(r"InlineDefBody::\w+$", st.kind) and st.kind.startswith("agg adt")
+                     and st.bb not in inl.cleanup]
+            bools = [l for l in ("_1", "_2", "_3", "_4") if inl.locals.get(l) == "bool"]
+            inner = set()
+            for b in bools:
+                inner |= set(bool_local_edges(inl, b, "false"))
+            ok = bool(passed) and bool(sites) and all(any(inl.edge_dominates(e, st.bb) for e in inner) for st in sites)
+        ctx.check(ok, rule, "annotated-def-not-inlinable",
+                  "an inline body is computed only for defs without type annotations",
+                  "a def that declares parameter or return types can be marked inlinable (inline_def_body is reached, or "
+                  "builds an InlineDefBody, without `has_types` being false): calls compiled against the frozen def are "
+                  "replaced by the body / a type test and the annotations are never checked", fn=fn, line=c.line)
+
+
+def r12_format_specialisation_operand(ctx, F):
+    """`"a%sb" % r` and `"a{}b".format(x)` with a constant format string are compiled to one-argument instructions whose
+    runtime helper re-interprets the operand exactly like the generic operation (a tuple operand of `%` is the argument
+    list). The specialisation is therefore sound only if it hands the helper the SAME operand expression: the operand
+    of percent_s_one / format_one is the function's own operand parameter, not a piece taken out of it
+    (`"%s" % (x,)` must not become `"%s" % x`)."""
+    n = 0
+    for fpat, callee, argi in ((r"eval::compiler::expr::ExprCompiled::percent$", r"ExprCompiled::percent_s_one$", 1),):
+        f = F.one(fpat)
+        for c in f.calls:
+            if c.bb in f.cleanup or not re.search(callee, c.name) or len(c.args) <= argi:
+                continue
+            n += 1
+            os_ = origins(f, c.args[argi], pass_calls=None)
+            ok = any(o[0] == "param" for o in os_) and not any(o[0] in ("call", "agg") for o in os_)
+            ctx.check(ok, "C02.R12", "format-specialisation-operand:" + short_fn(f.qpath),
+                      "the specialised instruction receives the operand expression unchanged",
+                      "`%s` passes a rewritten operand (%s) to the one-argument specialisation: the helper interprets a "
+                      "tuple operand as the argument list, so e.g. `\"%%s\" %% (x,)` with a tuple x formats differently "
+                      "from the same program with the format string hidden in a variable"
+                      % (short_fn(f.qpath), sorted(short_fn(o[1].name) for o in os_ if o[0] == "call") or "built here"),
+                      fn=f, line=c.line)
+    ctx.floor("C02.R12", "one-argument format specialisations", n, 1)
+
+
+def r13_format_conversions_agree(ctx, F):
+    """the one-argument specialisations convert a non-string operand exactly like the general operation: `{}` is str()
+    (dot_format::format uses collect_str for the default conversion), `%s` of a non-string is repr() (interpolation::
+    percent uses collect_repr). str() and repr() differ for some non-string types (bytes), so a specialisation using the
+    other one changes the output when the format string becomes visible to the compiler."""
+    def convs(f):
+        out = set()
+        for g in [f] + list(F.closures_of(f)):
+            for c in g.calls:
+                m = re.search(r"::(collect_str|collect_repr)$", c.name)
+                if m and c.bb not in g.cleanup:
+                    out.add(m.group(1))
+        return out
+    fo = F.one(r"values::types::string::dot_format::format_one$")
+    ps = F.one(r"values::types::string::interpolation::percent_s_one$")
+    ps_convs = convs(ps)
+    for c in ps.calls:
+        g = F.fns.get(c.callee_uid()) if not c.indirect else None
+        if g is not None and re.search(r"string::(dot_format|interpolation)::", g.qpath):
+            ps_convs |= convs(g)
+    ctx.check(convs(fo) == {"collect_str"}, "C02.R13", "format_one-uses-str",
+              "`{}` specialisation converts with collect_str, like the general format",
+              "dot_format::format_one converts a non-string argument with %s: the general `{}` conversion is str(), so "
+              "`\"{}\".format(b\"abc\")` differs between the specialised and the general path" % sorted(convs(fo)), fn=fo)
+    ctx.check(ps_convs == {"collect_repr"}, "C02.R13", "percent_s_one-uses-repr",
+              "`%s` specialisation converts a non-string with collect_repr, like the general `%`",
+              "interpolation::percent_s_one converts a non-string argument with %s: the general `%%s` uses repr() for "
+              "non-strings" % sorted(ps_convs), fn=ps)
+
+
 def run(ctx):
     F = ctx.facts("core")
     r6_specialised_equality(ctx, F)
+    r13_format_conversions_agree(ctx, F)
+    r12_format_specialisation_operand(ctx, F)
+    r11_no_inlining_of_annotated_defs(ctx, F)
     r10_optimize_keeps_components(ctx, F)
     r9_statements_kept(ctx, F)
     r7_type_is_inline_positional(ctx, F)
